@@ -170,8 +170,18 @@ func c25Lifecycle(t *rapid.T) {
 	}
 	prof["unbond"] = 20
 	prof["addOrder"], prof["removeOrder"], prof["buyPool"] = 10, 8, 10
+	// one case in 32 runs on a node with more than ten thousand accounts, all of which are read before
+	// the first sweep, after a restart and at the start of every sweep inside Commit: a cache that
+	// releases entries under pressure must not hand out stale ones afterwards
+	crowd, crowdRead := 0, 0
+	if sim.U(t, "crowd", 32) == 0 || os.Getenv("C25_CROWD") != "" {
+		crowd = 10400
+		wo.ExtraAccounts = crowd
+		wo.Frozen = false
+	}
 	h := newHistory(t, wo, prof, sim.BlockOpts{MaxTxs: 8, Absences: true, Evidence: false})
 	n, r, w := h.N, h.R, h.W
+	h.G.Detached = true // the generator's view must not refill or reload the live caches
 	twin := sim.NewNode(w)
 	twin.Name = "twin"
 	r.Mirrors = []*sim.Node{twin}
@@ -184,6 +194,15 @@ func c25Lifecycle(t *rapid.T) {
 	maxOrder := uint32(0)
 	sweep := func(point string, mask int) {
 		ids := append([]uint64{0}, h.G.V.CoinIDs...)
+		if crowd > 0 && (crowdRead == 0 || point == "inside-commit") {
+			// the whole crowd is read (again): whatever bound below its size the cache has is crossed
+			// right here, before the users' accounts are queried
+			cs := n.App.CurrentState()
+			for k := 0; k < crowd; k++ {
+				cs.Accounts().GetBalance(sim.ExtraAddr(k), 0)
+			}
+			crowdRead++
+		}
 		for _, o := range h.G.V.Orders {
 			if uint32(o) > maxOrder {
 				maxOrder = uint32(o)
@@ -221,10 +240,14 @@ func c25Lifecycle(t *rapid.T) {
 	defer func() { tree.VerifCommitWindow = nil }()
 	restarts := 0
 	nb := rapid.IntRange(3, scale(14, 36)).Draw(t, "nBlocks")
+	if crowd > 0 && nb > 8 {
+		nb = 8 // every block of a crowded world costs an export and a cache refill of 10 000 accounts
+	}
 	for i := 0; i < nb && !r.Halted; i++ {
 		if i > 0 && sim.U(t, "restart", 5) == 0 {
 			n.Restart()
 			restarts++
+			crowdRead = 0 // the cache is cold again
 			r.Steps = append(r.Steps, "RESTART")
 			if sim.U(t, "queryAfterRestart", 2) == 0 {
 				sweep("after-restart", mask())
@@ -252,6 +275,9 @@ func c25Lifecycle(t *rapid.T) {
 		sim.S.LabelN("C25/lifecycle/queries-"+p, k)
 	}
 	sim.S.LabelN("C25/lifecycle/reads", reads)
+	if crowd > 0 {
+		sim.S.Label("C25/lifecycle/crowded-account-cache")
+	}
 	sim.S.LabelN("C25/lifecycle/reader-panics-recovered", panics)
 	sim.S.LabelN("C25/lifecycle/restarts", restarts)
 	sim.S.LabelN("C25/lifecycle/unbonds", r.KindsOK["unbond"])
